@@ -1371,9 +1371,68 @@ impl PartialEq<XmlDeclarationAttList> for XmlDeclarationAttList {
 }
 
 impl fmt::Display for XmlDeclarationAttList {
-    fn fmt(&self, _f: &mut fmt::Formatter<'_>) -> Result<(), fmt::Error> {
-        // TODO:
-        Ok(())
+    fn fmt(&self, f: &mut fmt::Formatter<'_>) -> Result<(), fmt::Error> {
+        write!(f, "<!ATTLIST ")?;
+
+        if let Some(prefix) = self.prefix.as_deref() {
+            write!(f, "{}:", prefix)?;
+        }
+
+        write!(f, "{}", self.local_name.as_str())?;
+
+        for att in self.atts.as_slice() {
+            write!(f, " {}", att)?;
+        }
+
+        write!(f, ">")
+    }
+}
+
+impl fmt::Display for XmlDeclarationAttDef {
+    fn fmt(&self, f: &mut fmt::Formatter<'_>) -> Result<(), fmt::Error> {
+        if let Some(prefix) = self.prefix.as_deref() {
+            write!(f, "{}:", prefix)?;
+        }
+
+        write!(f, "{} {} {}", self.local_name.as_str(), self.ty, self.value)
+    }
+}
+
+impl fmt::Display for XmlDeclarationAttDefault {
+    fn fmt(&self, f: &mut fmt::Formatter<'_>) -> Result<(), fmt::Error> {
+        match self {
+            XmlDeclarationAttDefault::Required => write!(f, "#REQUIRED"),
+            XmlDeclarationAttDefault::Implied => write!(f, "#IMPLIED"),
+            XmlDeclarationAttDefault::Value(fixed, values) => {
+                if fixed.is_some() {
+                    write!(f, "#FIXED ")?;
+                }
+
+                let mut value = String::new();
+                for v in values {
+                    value.push_str(&format!("{}", v));
+                }
+
+                write!(f, "{}", escape(value.as_str()))
+            }
+        }
+    }
+}
+
+impl fmt::Display for XmlDeclarationAttType {
+    fn fmt(&self, f: &mut fmt::Formatter<'_>) -> Result<(), fmt::Error> {
+        match self {
+            XmlDeclarationAttType::CData => write!(f, "CDATA"),
+            XmlDeclarationAttType::Entities => write!(f, "ENTITIES"),
+            XmlDeclarationAttType::Entity => write!(f, "ENTITY"),
+            XmlDeclarationAttType::Id => write!(f, "ID"),
+            XmlDeclarationAttType::IdRef => write!(f, "IDREF"),
+            XmlDeclarationAttType::IdRefs => write!(f, "IDREFS"),
+            XmlDeclarationAttType::NmToken => write!(f, "NMTOKEN"),
+            XmlDeclarationAttType::NmTokens => write!(f, "NMTOKENS"),
+            XmlDeclarationAttType::Notation(v) => write!(f, "NOTATION ({})", v.join("|")),
+            XmlDeclarationAttType::Enumeration(v) => write!(f, "({})", v.join("|")),
+        }
     }
 }
 
